@@ -151,6 +151,21 @@ def run(ctx):
 
     run_batch(ctx, MODULE, CFG, gen(), build.OBSERVERS, sigfn, negfn, chunk=5000)
     run_batch(ctx, MODULE, CFG, sweep_cases(ctx, lays), build.OBSERVERS, sigfn, negfn, chunk=20000)
+    # (iv) the same round trips right after a hostile history in the same interpreter (a construction refused inside a repeating
+    # group, a parse failing half-way through a group, the message in another mode): what is built must not depend on it
+    from ..drivers import history
+
+    hists = history.recipes(lays, rng, walk.fill, cfgdb)
+
+    def gen_hist():
+        for li, l in enumerate(lays):
+            if not l["reachable"] or l["c"] not in (1, 2) or not hists:
+                continue
+            P0 = build.zero_hp(l, walk.fill(l, "count", rng, cfgdb))
+            yield ("c03", {"_k": "hist:%d:%s" % (li, P0.hex()[:48]), "lay": l, "P0": P0.hex(), "only": None, "hist": hists[li % len(hists)]})
+
+    run_batch(ctx, MODULE, CFG, gen_hist(), build.OBSERVERS, sigfn, negfn, chunk=5000)
+    ctx.extra["hostile_histories"] = len(hists)
     ctx.exhaustive = False
     ctx.assumptions += ["values are presented to the constructor exactly as the parser reported them for the same bytes",
                         "high-precision (_HP*) companion fields are zero in round-trip inputs (they fold into their base attribute when parsed)"]
